@@ -210,6 +210,22 @@ def allocatedSize (s : Server) : Nat := (s.incoming.map (fun e => e.2.1.maxSize)
 def availableSpace (s : Server) (free : Nat) : Nat :=
   if s.readonly then 0 else free - s.reserved
 
+/-- what `os.statvfs(sharedir)` reports (the fields `fileutil.get_disk_stats` reads) -/
+structure StatVfs where
+  frsize : Nat      -- f_frsize: fundamental block size, the unit of the three counts below
+  bsize : Nat       -- f_bsize: preferred I/O size (NOT the unit of the counts)
+  blocks : Nat
+  bfree : Nat
+  bavail : Nat
+deriving Repr
+
+/-- `get_disk_stats(...)['free_for_nonroot'] = s.f_frsize * s.f_bavail`: the bytes really free for
+    the server; this is the `free` argument of `availableSpace` / `allocate` -/
+def freeBytes (st : StatVfs) : Nat := st.frsize * st.bavail
+
+/-- `get_disk_stats(whichdir, reserved_space)['avail'] = max(free_for_nonroot - reserved_space, 0)` -/
+def diskAvail (st : StatVfs) (reserved : Nat) : Nat := freeBytes st - reserved
+
 /-- `get_shares(si)`: share numbers present in the final directory of `si` -/
 def finalShnums (s : Server) (si : Nat) : List Nat :=
   (s.final.filter (fun e => e.1.1 == si)).map (fun e => e.1.2)
